@@ -32,7 +32,7 @@ MODELS = {
                  ('MC_Hier', 'MC_Hier_t1.cfg', 3000),
                  ('Ddmin', 'MC_Ddmin_seq.cfg', 900, PARA)],
 }
-NCONF = {'quick': 15, 'thorough': 250}
+NCONF = {'quick': 15, 'thorough': 90}
 SEEDS = ['0', '1', 'random']
 CLAUSES = {
     'sequential-run-adopted-a-later-task-before-an-untested-earlier-one',
